@@ -121,7 +121,8 @@ class HandlerCheck:
     def add_trace(self, kind, ops, obs, label="", oracle=None, describe=None):
         """Register an implementation trace; run the oracle on it; remember it for the correspondence."""
         self.n_cases += 1
-        self.sides.append((kind, ops, obs, label))
+        if not any(o[:2] == [6, 2] for o in ops):      # creation-rejecting filestore: not expressible in the model
+            self.sides.append((kind, ops, obs, label))
         tr = None
         if oracle is not None:
             try:
